@@ -383,7 +383,7 @@ func c15Offline(outDir string) ([]Violation, map[string]int64) {
 func init() {
 	Register(&Property{
 		ID:            "C15",
-		Rule:          "the same (expression, document) evaluated R times per process (R = 20 quick / 100 thorough) with the document rebuilt each time as fresh maps (shuffled insertion order, varying capacity hints, insert/delete churn) and alternately through Search and a fresh Compile + Expression.Search, in every one of K fresh processes (K = 4 quick / 16 thorough), outcomes compared within each process online and across processes offline over the merged event logs, AST fingerprints (hook) compared too; 75 forms aimed at every place a Go map is ranged (multi-select hashes and lets with many/duplicate names, merge with overlapping keys, group_by, from_items duplicates, object projections, keys/values/items, to_string of objects, equality of objects) plus seeded random expressions; order-free expressions are compared strictly (array order and to_string text included), enumerating ones as multisets and only when the model confirms that no order-sensitive consumer is reached, multi-fault expressions by membership in the fault set; non-trivial = non-null, non-empty outcome; twin-texts stream: for unique texts E of 8..20000 bytes and 46 twins T (one code point that Unicode calls white space or that is invisible before / after E; white space, case or normalisation form changed inside E's literal; legal white space added or removed), the outcome of T before E was evaluated, after it, and through a fresh Compile must agree; hostile-keys cases: objects with keys that are ill-formed UTF-8 and collide after U+FFFD replacement, 10 to_string forms, 40 calls each; static-error-texts stream: ~20000 misspelled builtin calls, 8 compilations / searches each, the error text must not vary",
+		Rule:          "the same (expression, document) evaluated R times per process (R = 20 quick / 100 thorough) with the document rebuilt each time as fresh maps (shuffled insertion order, varying capacity hints, insert/delete churn) and alternately through Search and a fresh Compile + Expression.Search, in every one of K fresh processes (K = 4 quick / 16 thorough), outcomes compared within each process online and across processes offline over the merged event logs, AST fingerprints (hook) compared too; 75 forms aimed at every place a Go map is ranged (multi-select hashes and lets with many/duplicate names, merge with overlapping keys, group_by, from_items duplicates, object projections, keys/values/items, to_string of objects, equality of objects) plus seeded random expressions; order-free expressions are compared strictly (array order and to_string text included), enumerating ones as multisets and only when the model confirms that no order-sensitive consumer is reached, multi-fault expressions by membership in the fault set; non-trivial = non-null, non-empty outcome; twin-texts stream: for unique texts E of 8..20000 bytes and 46 twins T (one code point that Unicode calls white space or that is invisible before / after E; white space, case or normalisation form changed inside E's literal; legal white space added or removed), the outcome of T before E was evaluated, after it, and through a fresh Compile must agree; hostile-keys cases: objects with keys that are ill-formed UTF-8 and collide after U+FFFD replacement, 10 to_string forms, 40 calls each; static-error-texts stream: ~20000 misspelled builtin calls, 8 compilations / searches each, the error text must not vary; 11 forms hand an empty object (of the document, of a let, of a literal) to merge through &&, ||, not_null, lets and multi-selects next to sibling members that read the same object",
 		MinNontrivial: 500,
 		Streams: []Stream{
 			{Name: "repeat", N: func(c *Ctx) int { return c15Cases(c) * c.NBatch }, Run: c15Run},
